@@ -108,6 +108,21 @@ CLAIMS = {
              "unsupported-method/level refusals are not discharged within the caps (tier 'dev').",
         design_ref="DESIGN.md §5 C12, §11",
     ),
+    "C13": dict(
+        text="Bounded model checking of append, compositional in two solver-checked halves: (a) ZipWriter::new_append on "
+             "archives from the independent builder (one entry with all metadata symbolic - any method number, times, CRC, "
+             "declared size, attributes, host system, data-descriptor flag - with 0 or 2 bytes of prepended data, and the "
+             "empty archive): the writer comes back positioned on the old central directory, idle, raw flag set, holding "
+             "exactly the builder's entry values (absolute header offset) and the old comment; (b) from exactly that state "
+             "with EVERY scalar of the old entry symbolic (64-bit sizes/offset, so ZIP64 old entries are included) over an "
+             "arbitrary existing file image: adding one stored entry or nothing and finishing leaves every byte in front of "
+             "the old directory untouched, re-emits the old entry first with all its values (strict ZIP64 decoding), then the "
+             "new entry, with exact counts/sizes/offsets and the old comment.",
+        note=TRUST + "(a) asserts every field (b) assumes; one round, one old entry, one new entry; > 65535 entries, encrypted or "
+             "compressed-by-this-crate bases (metadata only matters: method numbers are symbolic) and multi-round histories "
+             "beyond one inductive step are outside the bound.",
+        design_ref="DESIGN.md §5 C13, §11",
+    ),
     "C15": dict(
         text="Bounded model checking of the traditional PKWARE cipher: one encrypt/decrypt step equals an APPNOTE 6.1 "
              "reference written with a bitwise CRC for ALL 2^96 key states x 2^8 bytes and decrypt inverts encrypt (by "
@@ -130,6 +145,18 @@ CLAIMS = {
              "unforgeability is not a bounded SAT question), and - not discharged within the caps - the MAC/read state "
              "machine and verifier harnesses (tier 'dev').",
         design_ref="DESIGN.md §5 C16, §7",
+    ),
+    "C17": dict(
+        text="Bounded model checking of the extra-data half: validate_extra_data accepts EXACTLY the well-formed record "
+             "sequences without the ZIP64 id, ids <= 31 or APPNOTE-registered ids (table typed from the specification) for "
+             "every 3-, 5- and 9-byte block; through the public API (start_file_with_extra_data, write, "
+             "end_local_start_central_extra_data, end_extra_data) a record with symbolic unreserved id is stored verbatim in "
+             "the local header and the central record (also with large_file, where the local length must cover the ZIP64 "
+             "block), data starts where reported, reserved or truncated records - also central-only ones - are refused with "
+             "an error; the central header writer stores caller extra data verbatim after the ZIP64 record.",
+        note=TRUST + "The alignment half (start_file_aligned: data offset multiple of the alignment for every alignment and preceding "
+             "offset) is NOT discharged within the caps (harness c17_aligned_small_any_offset in tier 'dev') and is outside this claim.",
+        design_ref="DESIGN.md §5 C17, §11",
     ),
     "C18": dict(
         text="Bounded model checking (Kani/CBMC) of the real DateTime code: from_msdos/datepart/timepart are shown mutually "
@@ -162,9 +189,7 @@ NOT_APPLICABLE = {
     "C07": "file-system effects of extract() are syscalls behind FFI with no encodable model; the reduced path-confinement harness under fs stubs is not yet discharged; see DESIGN.md §5 C07",
     "C10": PENDING + " (only the refusal of encrypted/data-descriptor entries is discharged, registered under C05)",
     "C11": PENDING,
-    "C13": PENDING,
     "C14": PENDING,
-    "C17": PENDING + " (validate_extra_data's 49-entry id table forces a global unwinding bound of 51)",
     "C20": "concurrent use from several threads and Send/Sync are not solver queries (Kani does not model threads; Send/Sync is decided by the type checker); the single-threaded interleaving harness is not built yet; see DESIGN.md §5 C20",
 }
 
@@ -178,6 +203,8 @@ OUTSIDE = {
     "C08": "entry-count thresholds (65534..65537 entries), multi-GiB real payloads (sizes are constructed symbolically), the 4 GiB write guard",
     "C09": "ZipCrypto and AES readers, short-write sinks, decoders' own buffering, streaming reader",
     "C12": "sequences other than the listed ones, raw copy, compression levels, unsupported methods",
+    "C13": "more than one old entry / one new entry / one round in a single query, > 65535 entries, CPython-built bases",
+    "C17": "start_file_aligned (alignment half), extra data > 9 bytes, local-and-central split with non-empty local part (dev)",
     "C15": "passwords > 3 bytes in derive (the per-byte step is proven for every state, so longer passwords follow by induction), compressing methods under encryption",
     "C16": "cryptographic strength, real PBKDF2/HMAC/AES equivalence to the standards, tamper detection, MAC state machine",
     "C18": "nothing inside DateTime; the archive-level round trip of timestamps is part of C01/C02",
